@@ -210,6 +210,11 @@ class Ledger:
         self.features = set()
         self.comms = rng.sample(COMMS, rng.randint(3, 8))
         self.accounts = rng.sample(ASSETS, rng.randint(2, 4)) + rng.sample(OTHERS, rng.randint(3, 6))
+        if rng.random() < 0.3:
+            # accounts that differ only in letter case, or only in a trailing segment: any order that is not the exact
+            # byte order of the names would tie on them
+            twin = rng.choice(self.accounts)
+            self.accounts += [twin.lower() if rng.random() < 0.5 else twin.upper(), twin + ":Sub"]
         if rng.random() < 0.25:
             self.accounts += ["Assets:Sub%02d:Leaf%d" % (i, rng.randint(0, 3)) for i in range(rng.randint(10, 40))]
             self.features.add("many-accounts")
